@@ -408,7 +408,9 @@ def c18(shape: Shape, hist, obs, obs_plain, realisation: str = "") -> List[Viol]
         det = lambda **kw: _detail(shape, hist, i, o, realisation=realisation, expected_graph=exp, observed_graph=g, **kw)
         if not e_nodes <= nodes:
             res.append(("C18|missing-node|%s" % tags, det(missing=sorted(e_nodes - nodes))))
-        elif nodes - e_nodes:
+        elif [n for n in nodes - e_nodes if any(n in (u, v) for (u, v, _) in g["edges"])]:
+            # a further node is only a finding when an edge touches it (the statement fixes which paths must
+            # appear and which edges may exist; an isolated extra box contradicts neither)
             res.append(("C18|extra-node|%s" % tags, det(extra=sorted(nodes - e_nodes))))
         elif e_solid - solid:
             res.append(("C18|missing-solid-edge|%s" % tags, det(missing=sorted(e_solid - solid))))
@@ -471,8 +473,11 @@ def c10(shape: Shape, hist, obs, realisation: str = "") -> List[Viol]:
             # blobs are self-describing terms: the stored values name their function
             stored_funs = sorted(op[2][0] for op in stores if isinstance(op[2], list) and op[2])
             exp_funs = sorted(c[1] for c in rec["stored"])
-            if stored_funs != exp_funs:
-                res.append(("C10|stored-blobs|%s|expected=%s|got=%s" % (where, exp_funs, stored_funs),
+            # only sub-results that completed may be stored (the property allows reusing them, it does not
+            # demand that they are kept): nothing of the failing function or of those waiting for it
+            extra_stored = list((Counter(stored_funs) - Counter(exp_funs)).elements())
+            if extra_stored:
+                res.append(("C10|stored-blobs|%s|expected-at-most=%s|got=%s" % (where, exp_funs, stored_funs),
                             _detail(shape, hist, i, o, realisation=realisation)))
                 break
             if o.get("ctx_clean") is False:
@@ -504,9 +509,20 @@ def c10(shape: Shape, hist, obs, realisation: str = "") -> List[Viol]:
         exp = Counter(rec["log"])
         got = Counter(o.get("log") or [])
         if got != exp and after_fail:
-            kind = "re-executed-completed-subresult" if any(got[f] > exp.get(f, 0) for f in got) else "served-uncompleted"
-            res.append(("C10|next-eval-exec|%s|%s" % (tag, kind), _detail(shape, hist, i, o, realisation=realisation)))
-            break
+            # "as if the failed one had not happened, apart from reusing sub-results that did complete":
+            # re-executing a sub-result that completed in a failed evaluation is allowed, serving something
+            # that never completed, or executing anything else again, is not
+            completed_in_failed = set(c[1] for (j, r2) in evals(hist) if j < i and isinstance(r2["err"], list) for c in r2["stored"])
+            more = set(f for f in got if got[f] > exp.get(f, 0))
+            less = set(f for f in exp if got.get(f, 0) < exp[f])
+            kind = ""
+            if less:
+                kind = "served-uncompleted"
+            elif more - completed_in_failed:
+                kind = "re-executed-unrelated"
+            if kind:
+                res.append(("C10|next-eval-exec|%s|%s" % (tag, kind), _detail(shape, hist, i, o, realisation=realisation)))
+                break
     return res
 
 
